@@ -52,7 +52,7 @@ AmocoDevs == <<"X64_A32_SibBase5_NoDisp32", "X64_66_RexW_Imm16">>
 AmocoDevSet == {AmocoDevs[k] : k \in DOMAIN AmocoDevs}
 
 Init0(mode, dev) ==
-  [mode |-> mode, dev |-> dev, st |-> "Prefix", pos |-> 0, npfx |-> 0,
+  [mode |-> mode, dev |-> dev, lenient |-> FALSE, st |-> "Prefix", pos |-> 0, npfx |-> 0,
    p66 |-> FALSE, p67 |-> FALSE, pc |-> "n", lock |-> FALSE,
    rex |-> -1, opsize |-> 32, adsize |-> mode, map |-> 1, op |-> -1,
    aid |-> 0, kind |-> "x", mod |-> -1, rm |-> -1, sib |-> -1,
@@ -131,6 +131,13 @@ PrefixStep(s, b) ==
   ELSE IF b = 240 THEN [t EXCEPT !.lock = TRUE]
   ELSE t
 
+\* the immediate kind of a class in the column in effect. Lenient mode (used ONLY to attribute a failure on a
+\* string outside the claimed domain to a known finding, never to produce an expected value) falls back to the
+\* first valid column of the same class when the column in effect is marked invalid.
+RECURSIVE FirstValid(_, _)
+FirstValid(ks, k) == IF k > Len(ks) THEN "x" ELSE IF ks[k] # "x" THEN ks[k] ELSE FirstValid(ks, k + 1)
+KindOf(s, ks) == IF ks[PcIdx(s)] # "x" \/ ~s.lenient THEN ks[PcIdx(s)] ELSE FirstValid(ks, 1)
+
 AfterOpcode(s, op) ==
   LET id == OpId(s.mode, s.map, op)
       a == Attr(id)
@@ -140,7 +147,7 @@ AfterOpcode(s, op) ==
                      !.op = IF s.dev \in AmocoDevSet THEN op ELSE -1] IN
   CASE a.k = "x" -> Out(t)
     [] a.k = "p" -> Out(t)
-    [] a.k = "n" -> LET kd == a.imm[PcIdx(s)] IN
+    [] a.k = "n" -> LET kd == KindOf(s, a.imm) IN
                     IF kd = "x" THEN Out(t)
                     ELSE [t EXCEPT !.kind = kd, !.br = a.br, !.st = "Disp", !.ndisp = 0]
     [] a.k = "m" -> [t EXCEPT !.st = "ModRM"]
@@ -158,7 +165,7 @@ ModRMStep(s, b) ==
       a   == Attr(s.aid)
       e   == IF mod = 3 THEN a.reg[reg + 1] ELSE [u |-> TRUE, k |-> a.mem[reg + 1]]
       ks  == IF e.u THEN e.k ELSE e.ks[rm + 1]
-      kd  == ks[PcIdx(s)]
+      kd  == KindOf(s, ks)
       \* the state keeps rm only as far as the addressing rule distinguishes it (4, 5, 6, other = 0)
       t   == [s EXCEPT !.pos = @ + 1, !.mod = mod, !.rm = IF rm \in {4, 5, 6} THEN rm ELSE 0, !.kind = kd] IN
   IF kd = "x" THEN Out(t)
@@ -219,6 +226,7 @@ Run(s, bytes) ==
 \* Dev is "none" except in the self-test configurations
 Decode(bytes, mode) == Run(Init0(mode, Dev), bytes)
 DecodeDev(bytes, mode, dev) == Run(Init0(mode, dev), bytes)
+DecodeLenient(bytes, mode, dev) == Run([Init0(mode, dev) EXCEPT !.lenient = TRUE], bytes)
 
 
 
